@@ -895,7 +895,9 @@ func (x *Exec) havocLoop(st *State, fr *Frame, ld *loopDesc) {
 					for _, r := range regs {
 						frameRegions[r] = true
 					}
-					worldCalls = true
+					if x.abstractCallWritesWorld(in.Common()) {
+						worldCalls = true
+					}
 					break
 				}
 				callsUnknown = true
@@ -1728,4 +1730,19 @@ func (x *Exec) abstractCallFrame(st *State, cc *ssa.CallCommon) ([]string, bool)
 		}
 	}
 	return out, true
+}
+
+// abstractCallWritesWorld mirrors callAbstract's classification of a callee without contract.
+func (x *Exec) abstractCallWritesWorld(cc *ssa.CallCommon) bool {
+	if cc.IsInvoke() {
+		return !looksReadOnly(cc.Method.Name())
+	}
+	f := cc.StaticCallee()
+	if f == nil {
+		return true
+	}
+	if isEffectFreePkg(f) || isDropped(CanonName(f)) {
+		return false
+	}
+	return x.writesWorld(f, 0)
 }
